@@ -377,6 +377,8 @@ class MachO(BinFormat):
             elif op == BIND_OPCODE_SET_SYMBOL_TRAILING_FLAGS_IMM:
                 r.flags = im
                 nulchar = raw.find(b"\0", cur)
+                if nulchar < 0:
+                    raise MachOError("unterminated symbol in bind opcodes")
                 if nulchar > cur:
                     r.symbol = raw[cur:nulchar]
                 cur = nulchar + 1
@@ -406,6 +408,9 @@ class MachO(BinFormat):
             elif op == BIND_OPCODE_DO_BIND_ULEB_TIMES_SKIPPING_ULEB:
                 count, cnt = read_uleb128(raw[cur:])
                 skip, cnt2 = read_uleb128(raw[cur + cnt :])
+                if count * l > self.__file.size():
+                    # more pointers than the file can hold
+                    raise MachOError("bind opcodes outside of segments")
                 for i in range(count):
                     L.append(r.as_list())
                     r.seg_offset += skip + l
